@@ -15,6 +15,12 @@ import (
 	"verif/harness/internal/stats"
 )
 
+// names that stress length limits: 300 bytes of ASCII, and few characters in many bytes
+var (
+	longID      = "id-" + strings.Repeat("0123456789", 30)
+	multiByteID = strings.Repeat("\u4e8b\u00e9", 50)
+)
+
 func TestMain(m *testing.M) { stats.Main(m, "C05") }
 
 const ruleTypes = "all node-type sequences of length 0..5 over {filter, formatter, sink, formatter-filter, unknown type 0, and 258 / 260 / -252 which equal a real type modulo 256} registered as one pipeline on a fresh broker (exhaustive, 37449 sequences); oracle = acceptance predicate of the statement + delivery/IsAnyPipelineRegistered of the resulting state; non-trivial = length >= 3"
@@ -118,14 +124,14 @@ func diffObs(a, b obs) string {
 func TestC05Histories(t *testing.T) {
 	sec := stats.Sec("histories", ruleHist)
 	maxOps := stats.EnvInt("C05_MAXOPS", 12)
-	ets := []string{"A", "B"}
-	nodeIDs := []string{"a", "b", "c", "d", " "}
+	ets := []string{"A", "B", "A/q", "A ", longID}
+	nodeIDs := []string{"a", "b", "c", "d", " ", "a ", "A", "d ", longID}
 	allIDs := []string{"a", "b", "c", "d", "zz", " "}
 	typeVals := []int{1, 2, 2, 3, 3, 4, 0, 99, 258, 260, -252, 1<<32 + 2}
 	opGen := rapid.Custom(func(t *rapid.T) model.Op {
 		switch rapid.SampledFrom([]int{0, 0, 0, 1, 1, 1, 1, 2, 3, 4}).Draw(t, "k") {
 		case 0:
-			id := rapid.SampledFrom([]string{"a", "b", "c", "d", "a", "b", "c", "d", "", " "}).Draw(t, "n")
+			id := rapid.SampledFrom([]string{"a", "b", "c", "d", "a", "b", "c", "d", "", " ", "a ", "A", "d ", longID}).Draw(t, "n")
 			nt := rapid.SampledFrom(typeVals).Draw(t, "nt")
 			if rapid.IntRange(0, 2).Draw(t, "intended") > 0 {
 				switch id {
@@ -140,20 +146,20 @@ func TestC05Histories(t *testing.T) {
 				CloseErr: rapid.IntRange(0, 5).Draw(t, "closeErr") == 0, CloseKind: rapid.IntRange(0, 2).Draw(t, "closeKind")}
 		case 1:
 			if rapid.Bool().Draw(t, "likelyValid") {
-				ids := rapid.SliceOfN(rapid.SampledFrom([]string{"a", "b", "c", " "}), 0, 2).Draw(t, "inner")
+				ids := rapid.SliceOfN(rapid.SampledFrom([]string{"a", "b", "c", " ", "a ", "A", longID}), 0, 2).Draw(t, "inner")
 				ids = append(ids, "c", "d")
-				return model.Op{K: "regpipe", ET: rapid.SampledFrom([]string{"A", "B"}).Draw(t, "et"), P: rapid.SampledFrom([]string{"p", "q", "r"}).Draw(t, "p"), IDs: ids,
+				return model.Op{K: "regpipe", ET: rapid.SampledFrom([]string{"A", "B", "A", "B", "A/q", "A ", longID}).Draw(t, "et"), P: rapid.SampledFrom([]string{"p", "q", "r", "p", "q", "r", "q/p", "P", "p ", longID, multiByteID}).Draw(t, "p"), IDs: ids,
 					Pol: rapid.SampledFrom([]int{0, 0, 0, 1, 2}).Draw(t, "ppol")}
 			}
 			ids := rapid.SliceOfN(rapid.SampledFrom([]string{"a", "b", "c", "d", "a", "b", "c", "d", "a", "b", "c", "d", "zz", "", " "}), 0, 5).Draw(t, "ids")
 			return model.Op{K: "regpipe", ET: rapid.SampledFrom([]string{"A", "A", "B", "B", "A", "B", ""}).Draw(t, "et"),
 				P: rapid.SampledFrom([]string{"p", "q", "r", "p", "q", "r", ""}).Draw(t, "p"), IDs: ids, Pol: rapid.SampledFrom([]int{0, 0, 0, 1, 2, 3}).Draw(t, "ppol"), Dress: rapid.SampledFrom([]int{0, 0, 0, 1, 2, 3, 4}).Draw(t, "pdress")}
 		case 2:
-			return model.Op{K: "rmnode", N: rapid.SampledFrom([]string{"a", "b", "c", "d", "zz", "", " "}).Draw(t, "n"), CtxDone: rapid.IntRange(0, 3).Draw(t, "ctxDone") == 0}
+			return model.Op{K: "rmnode", N: rapid.SampledFrom([]string{"a", "b", "c", "d", "zz", "", " ", "a ", "A", "d ", longID}).Draw(t, "n"), CtxDone: rapid.IntRange(0, 3).Draw(t, "ctxDone") == 0}
 		case 3:
-			return model.Op{K: "rpan", ET: rapid.SampledFrom([]string{"A", "B", "C", ""}).Draw(t, "et"), P: rapid.SampledFrom([]string{"p", "q", "r", ""}).Draw(t, "p"), CtxDone: rapid.IntRange(0, 2).Draw(t, "ctxDone") == 0}
+			return model.Op{K: "rpan", ET: rapid.SampledFrom([]string{"A", "B", "C", "", "A/q", "A ", longID}).Draw(t, "et"), P: rapid.SampledFrom([]string{"p", "q", "r", "", "q/p", "P", "p ", longID, multiByteID}).Draw(t, "p"), CtxDone: rapid.IntRange(0, 2).Draw(t, "ctxDone") == 0}
 		default:
-			return model.Op{K: "rmpipe", ET: rapid.SampledFrom([]string{"A", "B"}).Draw(t, "et"), P: rapid.SampledFrom([]string{"p", "q", "r"}).Draw(t, "p")}
+			return model.Op{K: "rmpipe", ET: rapid.SampledFrom([]string{"A", "B", "A/q", "A "}).Draw(t, "et"), P: rapid.SampledFrom([]string{"p", "q", "r", "q/p", "P", "p "}).Draw(t, "p")}
 		}
 	})
 	rapid.Check(t, func(t *rapid.T) {
